@@ -12,6 +12,7 @@ import (
 	"errors"
 	"fmt"
 	"io"
+	"math/rand"
 	"net"
 	"sort"
 	"strconv"
@@ -235,6 +236,31 @@ func (c *Cluster) AddBroker(id int32) *Broker {
 	return b
 }
 
+// PickBrokers chooses between min and max distinct broker ids out of 0..6 — broker id 0 is usually among them —
+// and a bootstrap broker that is usually NOT broker 0 (id 0 is a valid id and must not be confused with "no broker").
+func PickBrokers(r *rand.Rand, min, max int) (ids []int32, boot int32) {
+	nb := min + r.Intn(max-min+1)
+	perm := r.Perm(7)
+	has0 := false
+	for _, id := range perm[:nb] {
+		ids = append(ids, int32(id))
+		has0 = has0 || id == 0
+	}
+	if !has0 && r.Intn(4) != 0 {
+		ids[r.Intn(nb)] = 0
+	}
+	boot = ids[r.Intn(nb)]
+	if boot == 0 && nb > 1 && r.Intn(6) != 0 {
+		for _, id := range ids {
+			if id != 0 {
+				boot = id
+				break
+			}
+		}
+	}
+	return ids, boot
+}
+
 func (b *Broker) Addr() string { return net.JoinHostPort(b.Host, strconv.Itoa(int(b.Port))) }
 
 func (c *Cluster) BrokerIDs() []int32 {
@@ -421,7 +447,7 @@ func (c *Cluster) Coordinator(key string, keyType int8) int32 {
 	if len(ids) == 0 {
 		return -1
 	}
-	h := 0
+	h := int(keyType) * 5 // group and transaction coordinators of the same key string usually differ
 	for _, ch := range []byte(key) {
 		h = h*31 + int(ch)
 	}
